@@ -1295,6 +1295,25 @@ fn derive_reprc_new(input: DeriveInput) -> TokenStream {
                 return implement_reprc_hardcoded_false(name.clone(), &input);
             }
 
+            // The serialized form of an enum is its variant index. An explicit discriminant
+            // that differs from the variant's index makes the in-memory tag differ from the
+            // serialized one, so such enums must never be blitted.
+            let has_remapped_discriminant = enum1.variants.iter().enumerate().any(|(idx, variant)| {
+                match &variant.discriminant {
+                    None => false,
+                    Some((_, syn::Expr::Lit(syn::ExprLit {
+                        lit: syn::Lit::Int(lit), ..
+                    }))) => lit.base10_parse::<u64>().map(|x| x != idx as u64).unwrap_or(true),
+                    Some(_) => true,
+                }
+            });
+            if has_remapped_discriminant {
+                if opt_in_fast {
+                    abort_call_site!("The #[savefile_require_fast] attribute cannot be used for enums with explicit discriminants that differ from the variant index.");
+                }
+                return implement_reprc_hardcoded_false(name.clone(), &input);
+            }
+
             let mut conditions = vec![];
 
             let mut min_safe_version: u32 = 0;
